@@ -94,12 +94,12 @@ Theorem C15_solver_options_in_source :
   [("merge", "n_components", "self.n_modes_precompute"); ("merge", "random_state", "self.random_state");
    ("merge", "k", "self.n_modes_precompute"); ("merge", "random_state", "self.random_state"); ("merge", "solver", "'lobpcg'");
    ("merge", "k", "self.n_modes_precompute"); ("merge", "seed", "self.random_state");
-   ("default", "compute", "self.compute"); ("default", "n_power_iter", "4")]%string /\
+   ("default", "compute", "self.compute"); ("default", "n_power_iter", "4"); ("default", "iterator", "'QR'")]%string /\
   svd_solver_options =
   [("merge", "n_components", "self.n_modes_precompute"); ("merge", "random_state", "self.random_state");
    ("merge", "k", "self.n_modes_precompute"); ("merge", "random_state", "self.random_state"); ("merge", "solver", "'lobpcg'");
    ("merge", "k", "self.n_modes_precompute"); ("merge", "seed", "self.random_state");
-   ("default", "compute", "False"); ("default", "n_power_iter", "4")]%string.
+   ("default", "compute", "False"); ("default", "n_power_iter", "4"); ("default", "iterator", "'QR'")]%string.
 Proof. exact solver_options_known. Qed.
 Print Assumptions C15_solver_options_in_source.
 
